@@ -32,6 +32,7 @@ BUILT = {
  "C15": ("exploration", "PGN space (2^18) enumerated in both tiers, identifier space (2^29) enumerated in the thorough tier (stride sample + boundaries in quick), NAME space covered by exhaustive per-field sweeps, single bits, boundary tuples and Hypothesis draws, all against an independent reference codec.", "5/C15"),
  "C16": ("exploration", "DTC (all 2^19 SPN), lamp (all 5^4) and DM22 codecs enumerated against the J1939-73 bit layout; generated end-to-end DM1 histories (1..400 codes, single frame / BAM / FD multi-PG / FD BAM, several cycles, stop_send then silence) on both layers.", "5/C16"),
  "C17": ("exploration", "Generated DM14 read/write transactions (1..255 bytes, object sizes 1/2/4/8, raw/converted, signed/unsigned, seed/key on/off, back to back) between two real stacks with blocking application threads in virtual time, judged by a reference memory model, proceed-callback arguments and idleness afterwards.", "5/C17"),
+ "C18": ("exploration", "Generated histories of DM14 operations with failure fates (wrong key, refusal by the proceed callback, respond(False) with every J1939 error code, absent server) judged by: callbacks only after the matching key (bus trace), exception text and timing, and success of the next well-formed operation.", "5/C18"),
 }
 
 
